@@ -1,5 +1,7 @@
 import Driver.Util
 import DiskfsModel.Model.Ext4.ReaderCfg
+import DiskfsModel.Model.Ext4.SparseRead
+import DiskfsModel.Model.Ext4.InodeLoc
 namespace Driver.Ext4Ref
 open Diskfs Driver Diskfs.Ext4.Reader
 
@@ -29,7 +31,7 @@ def flatten (args : List String) : String :=
   | some root =>
     let blocks := parseBlocks ((arg args "blocks").getD "-")
     let rd := fun (n : Nat) => (blocks.find? fun p => p.1 == n).map Prod.snd
-    resStr extStr (Ext4.Reader.flatten rd 8 root)
+    resStr extStr (Ext4.Reader.flattenC refuseUnwrittenCurrent rd 8 root)
 
 def hexOrDash (b : Bytes) : String := if b.isEmpty then "-" else toHex b
 
@@ -81,6 +83,76 @@ def sb (args : List String) : String :=
 def gate (args : List String) : String :=
   s!"accept={if gateAccepts Cfg.current (argNatD args "incompat") then 1 else 0}"
 
+/-! ### File.Read over a sparse extent list -/
+
+/-- "fb:start:cnt,fb:start:cnt" -/
+def parseExtents (s : String) : List Extent :=
+  if s == "-" || s == "" then [] else
+  (s.splitOn ",").filterMap fun item =>
+    match (item.splitOn ":").map String.toNat? with
+    | [some a, some b, some c] => some ⟨a, b, c⟩
+    | _ => none
+
+/-- the byte pattern the engine fills synthetic devices with -/
+def patByte (i : Nat) : UInt8 := UInt8.ofNat ((i * 7 + i / 256 * 13 + 5) % 251)
+
+/-- device from "off:hex;off:hex" segments (zero elsewhere) -/
+def segDev (segs : Array (Nat × ByteArray)) (i : Nat) : UInt8 :=
+  match segs.find? (fun s => s.1 ≤ i && i < s.1 + s.2.size) with
+  | some s => s.2.get! (i - s.1)
+  | none => 0
+
+def fnv (b : Bytes) : Nat :=
+  b.foldl (fun h x => ((h ^^^ x.toNat) * 16777619) % 4294967296) 2166136261
+
+def iosStr (ios : List (Nat × Nat)) : String :=
+  if ios.isEmpty then "-" else ".".intercalate (ios.map fun p => s!"{p.1}+{p.2}")
+
+/-- run the Read calls one after the other; stop at the first error or panic -/
+def sreadCalls (dev : Dev) (devSize bs : Nat) (es : List Extent) (size : Nat) : List Nat → Nat → List String → List String × Nat
+  | [], off, acc => (acc.reverse, off)
+  | n :: ns, off, acc =>
+    match sparseRead dev devSize bs es size off n with
+    | .ok r => sreadCalls dev devSize bs es size ns r.off
+        (s!"{r.data.length}:{if r.eof then 1 else 0}:{fnv r.data}:{iosStr r.ios}" :: acc)
+    | .ioerr k o => ((s!"err:{k}" :: acc).reverse, o)
+    | .panic o => (("panic" :: acc).reverse, o)
+
+def sread (args : List String) : String :=
+  let es := parseExtents ((arg args "ex").getD "-")
+  let segs : Array (Nat × ByteArray) := ((parseBlocks ((arg args "segs").getD "-")).map fun p => (p.1, ByteArray.mk p.2.toArray)).toArray
+  let dev : Dev := if argNatD args "pat" == 1 then patByte else segDev segs
+  let (calls, off) := sreadCalls dev (argNatD args "devsize") (argNatD args "bs") es (argNatD args "size")
+    (natList ((arg args "ns").getD "-")) (argNatD args "off") []
+  s!"calls={if calls.isEmpty then "-" else "|".intercalate calls}\tend={off}"
+
+/-! ### group descriptors and inode addressing -/
+
+def gdStr (d : GdInfo) : String :=
+  s!"bb={d.blockBitmap}\tib={d.inodeBitmap}\tit={d.inodeTable}\tfb={d.freeBlocks}\tfi={d.freeInodes}\tud={d.usedDirs}\tui={d.unusedInodes}\tex={d.exclBitmap}\tbc={d.blockBitmapCsum}\tic={d.inodeBitmapCsum}\tfl={d.flags % 8}"
+
+def gd (args : List String) : String :=
+  match argHex args "d" with
+  | none => "bad-input"
+  | some b => gdStr (gdDecode b (argNatD args "gdsize"))
+
+def locStr : Option (Nat × Nat) → String
+  | some (o, l) => s!"off={o}\tlen={l}"
+  | none => "err"
+
+def inoloc (args : List String) : String :=
+  match argHex args "gdt" with
+  | none => "bad-input"
+  | some gdt =>
+    locStr (inodeRawLoc ⟨argNatD args "bs", argNatD args "isz", argNatD args "ipg"⟩ gdt (argNatD args "gdsize")
+      (argNatD args "devsize") (argNatD args "n"))
+
+def inoloct (args : List String) : String :=
+  let g : InoGeo := ⟨argNatD args "bs", argNatD args "isz", argNatD args "ipg"⟩
+  match inodeLoc g (natList ((arg args "tables").getD "-")) (argNatD args "n") with
+  | none => "err"
+  | some (o, l) => if o ≥ argNatD args "devsize" ∨ o + l > argNatD args "devsize" then "err" else locStr (some (o, l))
+
 end Driver.Ext4Ref
 
 def main : IO Unit := Driver.runLoop fun op args =>
@@ -91,4 +163,8 @@ def main : IO Unit := Driver.runLoop fun op args =>
   | "ext4ref.xattr" => Driver.Ext4Ref.xattr args
   | "ext4ref.sb" => Driver.Ext4Ref.sb args
   | "ext4ref.gate" => Driver.Ext4Ref.gate args
+  | "ext4ref.sread" => Driver.Ext4Ref.sread args
+  | "ext4ref.gd" => Driver.Ext4Ref.gd args
+  | "ext4ref.inoloc" => Driver.Ext4Ref.inoloc args
+  | "ext4ref.inoloct" => Driver.Ext4Ref.inoloct args
   | _ => "unknown-op"
